@@ -495,7 +495,7 @@ CONTRACTS['modularity_louvain_und_sign'].concrete_ghosts = _louvain_sign_ghosts
 # returns it divided by s.  The sweeps of a level are used modularly (fragment contract community_louvain#level, which updates
 # Mb / Hnm / Hm in place); proved here: construction and symmetrisation of the kernel, initial bookkeeping, the outer loop with the
 # first-iteration branch, relabelling, composition of labels, aggregation, q = trace, the returned pair.
-def _setup_cl_full(given_ci):
+def _setup_cl_full(given_ci, objective='modularity'):
     def setup(eng, st):
         N = z3.Int('N')
         st.pc.append(N >= 1)
@@ -503,7 +503,7 @@ def _setup_cl_full(given_ci):
         st.ghost['NN'] = N
         st.env['gamma'] = z3.Real('gamma')
         st.env['ci'] = alloc(st, 1, z3.Const('ci_in', A1I), (N,), INT) if given_ci else None
-        st.env['B'] = 'modularity'
+        st.env['B'] = objective
         st.env['seed'] = Opaque('seed')
     return setup
 
@@ -524,11 +524,48 @@ _CLF = [
 ]
 
 
-def _cl_contract(given_ci):
-    key = 'community_louvain@ci' if given_ci else 'community_louvain'
+_POTTS = "(W[%s, %s] - (gamma if W[%s, %s] == 0 else 0))"
+_KERNEL_DEF = {
+    # the objective kernel the routine optimises, cell by cell (before symmetrisation), as documented for each built-in objective
+    'potts': "forall(lambda x, y: implies(And(inr(x, NN), inr(y, NN)), Bo[x, y] == (" + (_POTTS % ('x', 'y', 'x', 'y')) + " + " + (_POTTS % ('y', 'x', 'y', 'x')) + ") / 2))",
+}
+
+
+def _signed_kernel(x, y, d0, d1):
+    k0 = "(W0[%s, %s] - gamma * (rsum(W0, %s, NN) * csum(W0, %s, NN)) / s0)" % (x, y, x, y)
+    k1 = "((W1[%s, %s] - gamma * (rsum(W1, %s, NN) * csum(W1, %s, NN)) / s1) if s1 != 0 else 0)" % (x, y, x, y)
+    return "(%s / %s - %s / %s)" % (k0, d0, k1, d1)
+
+
+for _o, (_d0, _d1) in {'negative_sym': ('(s0 + s1)', '(s0 + s1)'), 'negative_asym': ('s0', '(s0 + s1)')}.items():
+    _KERNEL_DEF[_o] = ("And(forall(lambda x, y: implies(And(inr(x, NN), inr(y, NN)), And(W0[x, y] == (W[x, y] if W[x, y] > 0 else 0), W1[x, y] == (-W[x, y] if W[x, y] < 0 else 0)))), "
+                       "s0 == tsum(W0, NN), s1 == tsum(W1, NN), "
+                       "forall(lambda x, y: implies(And(inr(x, NN), inr(y, NN)), Bo[x, y] == (" + _signed_kernel('x', 'y', _d0, _d1) + " + " + _signed_kernel('y', 'x', _d0, _d1) + ") / 2)))")
+
+
+def _cl_contract(given_ci, objective='modularity'):
+    key = 'community_louvain' + ('' if objective == 'modularity' else ':' + objective) + ('@ci' if given_ci else '')
+    modular = objective == 'modularity'
+    signed = objective in ('negative_sym', 'negative_asym')
+    req = [('total-weight-nonzero', "tsum(W, NN) != 0")]
+    if not signed:
+        req.append(('weights-nonnegative', "forall(lambda x, y: implies(And(inr(x, NN), inr(y, NN)), W[x, y] >= 0))"))
+    ens_q = "result(1) == QrawB(Bo, result(0), NN)" + ("" if signed else " / s")
+    ens = [('C02-q-is-the-objective-of-the-returned-labels' + ('' if signed else '-over-s'), ens_q)]
+    if modular:
+        ens += [('C02-q-is-the-modularity-of-the-returned-labels', "result(1) == Qmod(Worig, result(0), gamma, NN)"),
+                ('C07-modularity-not-worse-than-the-start', "implies(s > 0, Qmod(Worig, result(0), gamma, NN) >= Qmod(Worig, ci0, gamma, NN))")]
+    if objective in _KERNEL_DEF:
+        ens.append(('KERNEL-is-the-documented-objective', _KERNEL_DEF[objective]))
+    ens += [('C07-objective-not-worse-than-start', "QrawB(Bo, result(0), NN) >= QrawB(Bo, ci0, NN)"),
+            ('C02-labels-in-range', "forall(lambda x: implies(inr(x, NN), And(result(0)[x] >= 1, result(0)[x] <= NN)))"),
+            ('argument-untouched', "unchanged('W')")]
+    gb = {}
+    if modular:
+        gb['if not renormalize'] = "assume(lemma_Q_from_kernel(Bo, Worig, ci, gamma, s, NN), lemma_Q_from_kernel(Bo, Worig, ci0, gamma, s, NN))"
     return Contract(
-        MOD, 'community_louvain', ['W', 'gamma', 'ci', 'B', 'seed'], setup=_setup_cl_full(given_ci), key=key,
-        requires=[('total-weight-nonzero', "tsum(W, NN) != 0"), ('weights-nonnegative', "forall(lambda x, y: implies(And(inr(x, NN), inr(y, NN)), W[x, y] >= 0))")],
+        MOD, 'community_louvain', ['W', 'gamma', 'ci', 'B', 'seed'], setup=_setup_cl_full(given_ci, objective), key=key,
+        requires=req,
         use_fragments={'level': dict(contract=CONTRACTS['community_louvain#level'], bind={'n0': 'n', 'Mb0': 'Mbs'}, ghost_before='Mbs = snapshot(Mb)', ghost_after='Mb_after_level = snapshot(Mb)')},
         loops={
             'for m in range(1, n + 1)': {'name': 'init', 'inv': [
@@ -557,23 +594,14 @@ def _cl_contract(given_ci):
             'for i in range(1, n + 1)': "Bl = snapshot(B); assume(lemma_ext_B(Bl, Bo, Mb, NN), lemma_ext_B(Bl, Bo, Mbs, NN), lemma_relabel_B(Bo, Mbs, cip, NN), "
                                         "lemma_agg_compose_B(Bo, cip, Bl, Mb, ci, NN, nl), lemma_agg_compose_B(Bo, cip, Bl, Mbs, cip, NN, nl), lemma_trace_agg(b1, Bo, ci, n, NN))",
         },
-        ghost_before={
-            # (anchored next to, not on, the statements they are about)
-            'if not renormalize': "assume(lemma_Q_from_kernel(Bo, Worig, ci, gamma, s, NN), lemma_Q_from_kernel(Bo, Worig, ci0, gamma, s, NN))",
-        },
-        ensures=[
-            ('C02-q-is-the-objective-of-the-returned-labels-over-s', "result(1) == QrawB(Bo, result(0), NN) / s"),
-            ('C02-q-is-the-modularity-of-the-returned-labels', "result(1) == Qmod(Worig, result(0), gamma, NN)"),
-            ('C07-modularity-not-worse-than-the-start', "implies(s > 0, Qmod(Worig, result(0), gamma, NN) >= Qmod(Worig, ci0, gamma, NN))"),
-            ('C07-objective-not-worse-than-start', "QrawB(Bo, result(0), NN) >= QrawB(Bo, ci0, NN)"),
-            ('C02-labels-in-range', "forall(lambda x: implies(inr(x, NN), And(result(0)[x] >= 1, result(0)[x] <= NN)))"),
-            ('argument-untouched', "unchanged('W')" + (" and unchanged('ci')" if False else "")),
-        ],
+        ghost_before=gb, ensures=ens,
         ensures_raises=[('raises-only-on-a-runaway-loop', "raised('BCTParamError')")])
 
 
 CONTRACTS['community_louvain'] = _cl_contract(False)
 CONTRACTS['community_louvain@ci'] = _cl_contract(True)
+for _obj in ('potts', 'negative_sym', 'negative_asym'):
+    CONTRACTS['community_louvain:' + _obj] = _cl_contract(False, _obj)
 
 
 def _cl_ghosts(args, result, locs):
@@ -588,3 +616,22 @@ def _cl_ghosts(args, result, locs):
 
 CONTRACTS['community_louvain'].concrete_ghosts = _cl_ghosts
 CONTRACTS['community_louvain@ci'].concrete_ghosts = _cl_ghosts
+
+
+def _cl_obj_ghosts(args, result, locs):
+    import numpy as np
+    W = np.asarray(args['W'], dtype=float)
+    N, g, obj = len(W), args['gamma'], args['B']
+    if obj == 'potts':
+        K = W - g * (W == 0)
+    else:
+        W0, W1 = W * (W > 0), -W * (W < 0)
+        s0, s1 = W0.sum(), W1.sum()
+        B0 = W0 - g * np.outer(W0.sum(1), W0.sum(0)) / s0
+        B1 = W1 - g * np.outer(W1.sum(1), W1.sum(0)) / s1 if s1 else 0 * W
+        K = B0 / (s0 + s1) - B1 / (s0 + s1) if obj == 'negative_sym' else B0 / s0 - B1 / (s0 + s1)
+    return {'Worig': W, 'NN': N, 'Bo': (K + K.T) / 2, 'ci0': np.arange(N) + 1}
+
+
+for _obj in ('potts', 'negative_sym', 'negative_asym'):
+    CONTRACTS['community_louvain:' + _obj].concrete_ghosts = _cl_obj_ghosts
